@@ -4,7 +4,7 @@
              4 = (parser only) the property fails, the string lies in the domain of the known finding
                  (list_lossy: a range starting at a representable id whose end exceeds 2^20), the implementation agrees
                  with the model and adds no id the string does not denote. *)
-From Coq Require Import ZArith List Bool.
+From Coq Require Import ZArith List Bool String Ascii.
 From DV Require Import Base.Corr Model.CpuSetModel.
 Import ListNotations.
 Local Open Scope Z_scope.
@@ -16,13 +16,21 @@ Fixpoint bits (n : nat) (w : Z) : list bool :=
 Definition decode (ws : list Z) : list bool := flat_map (bits 64) ws.
 Definition bools_eqb := list_eqb Bool.eqb.
 
+(* the checks pass a cpu_set_t as ONE number (word k = bits 64k .. 64k+63) and printable strings as string literals:
+   far fewer literals for coqc to elaborate than 16 words / one code per character *)
+Definition MASK64 : Z := 2 ^ 64 - 1.
+Definition words_of_big (z : Z) : list Z :=
+  map (fun k => Z.land (Z.shiftr z (64 * k)) MASK64) [0; 1; 2; 3; 4; 5; 6; 7; 8; 9; 10; 11; 12; 13; 14; 15].
+Definition codes (s : string) : list Z := map (fun a => Z.of_N (N_of_ascii a)) (list_ascii_of_string s).
+
 (* the implementation's final cpu_set_t words denote exactly the set [mem] *)
 Definition words_denote (ws : list Z) (mem : Z -> bool) : bool :=
   cs_wfb ws && bools_eqb (decode ws) (map mem all_ids).
 
 (* case = (operations, (query results of the implementation, final words of the implementation)) *)
-Definition judge_ops (c : list op * (list Z * list Z)) : Z :=
-  let '(ops, (ires, iwords)) := c in
+Definition judge_ops (c : list op * (list Z * Z)) : Z :=
+  let '(ops, (ires, ibig)) := c in
+  let iwords := words_of_big ibig in
   let okp := zlist_eqb ires (ref_results [] ops) && words_denote iwords (math_mem (rev ops)) in
   if negb okp then 2
   else let '(ms, mres) := run_ops cs_empty ops in
@@ -75,8 +83,9 @@ Definition item_iv (it : item) : Z * Z :=
 Definition ivs_mem (ivs : list (Z * Z)) (i : Z) : bool := existsb (fun iv => (fst iv <=? i) && (i <=? snd iv)) ivs.
 
 (* case = (string as character codes, final words of the implementation) *)
-Definition judge_parse (c : list Z * list Z) : Z :=
-  let '(s, iwords) := c in
+Definition judge_parse (c : list Z * Z) : Z :=
+  let '(s, ibig) := c in
+  let iwords := words_of_big ibig in
   let agree := zlist_eqb (parseLinuxCpuList s) iwords in
   match recog s with
   | Some its =>
@@ -90,6 +99,8 @@ Definition judge_parse (c : list Z * list Z) : Z :=
       if words_denote iwords (fun i => existsb (fun iv => iv_mem iv i) ivs) then (if agree then 0 else 1) else 2
   end.
 
+Definition judge_parse_s (c : string * Z) : Z := judge_parse (codes (fst c), snd c).
+
 (* exhaustive enumeration: all strings over the alphabet, compared through a digest per bucket *)
 Definition ALPHA : list Z := [48; 49; 50; 51; 52; 53; 54; 55; 56; 57; 44; 45; 32].
 Fixpoint strings_of_len (n : nat) : list (list Z) :=
@@ -100,7 +111,6 @@ Fixpoint strings_of_len (n : nat) : list (list Z) :=
 Fixpoint fp_from (k : Z) (ws : list Z) : Z :=
   match ws with [] => 0 | w :: r => Z.shiftl w k + fp_from (k + 1) r end.
 Definition fp (ws : list Z) : Z := fp_from 0 ws.
-Definition MASK64 : Z := 2 ^ 64 - 1.
 Definition digest_step (d : Z) (s : list Z) : Z := Z.land (3 * d + fp (parseLinuxCpuList s) + 1) MASK64.
 Definition bucket_digest (pre : list Z) (n : nat) : Z :=
   fold_left digest_step (map (app pre) (strings_of_len n)) 0.
@@ -151,9 +161,10 @@ Definition check_groups (l2s l3s : list (list Z)) (mg : Z) (groups : list (list 
 
 Definition zlists_eqb := list_eqb zlist_eqb.
 
-(* case = ((l2 groups, l3 groups, maxGroupSize), (groups of the implementation, their affinity masks)) *)
-Definition judge_groups (c : (list (list Z) * list (list Z) * Z) * (list (list Z) * list (list Z))) : Z :=
-  let '((l2s, l3s, mg), (ig, im)) := c in
+(* case = ((l2 groups, l3 groups, maxGroupSize), (groups of the implementation, their affinity masks as numbers)) *)
+Definition judge_groups (c : (list (list Z) * list (list Z) * Z) * (list (list Z) * list Z)) : Z :=
+  let '((l2s, l3s, mg), (ig, ibigs)) := c in
+  let im := map words_of_big ibigs in
   if negb (check_groups l2s l3s mg ig && forallb2 mask_ok ig im) then 2
   else let mgroups := buildGroups l2s l3s mg in
        if zlists_eqb mgroups ig && zlists_eqb (map cs_from_ids mgroups) im then 0 else 1.
